@@ -1208,7 +1208,7 @@ func (c *templCtx) fixedPointSweep() {
 // more values for the sweep: numbers beyond float64, fractional / exponent timestamps, date look-alikes
 // with one-digit fields, control characters Go and JSON quote differently, arrays and objects whose
 // members are not in alphabetical order
-var sweepMore = []string{`1e400`, `-1E+999`, `1e-400`, `1632823189.5`, `1.6e9`, `0.0`, `"2021-9-4"`, `"2021-09-4"`, `"2021-9-04"`, `"21-09-24"`,
+var sweepMore = []string{`253402300799`, `253402300800`, `253402250400`, `253402214400`, `-62167219200`, `-62167219201`, `-62167180000`, `-62167250000`, `"9999-12-31T23:30:00-01:00"`, `"0000-01-01T00:30:00+01:00"`, `1e400`, `-1E+999`, `1e-400`, `1632823189.5`, `1.6e9`, `0.0`, `"2021-9-4"`, `"2021-09-4"`, `"2021-9-04"`, `"21-09-24"`,
 	`"2021-09-24T10:11:12"`, `"2021-09-24 10:11:12Z"`, `"a\u0007b"`, `"\u000b"`, `"\u007f"`, `"\u0000"`, `"\ud83d\ude00"`, `"\u2028"`,
 	`[]`, `[1,"a",null]`, `{}`, `{"z":1,"a":2}`, `{"z":{"n":1,"b":[{"y":1,"x":2}]},"a":null,"m":"t"}`, `" 1"`, `"0x10"`, `"+5"`, `".5"`, `"5."`, `"007"`, `"NaN"`, `"Infinity"`,
 	`"1e400"`, `"QQ="`, `"QQ"`, `"Q Q=="`, `"////"`, `"-_-_"`}
